@@ -123,6 +123,16 @@ CHECKS = {
              'inverse-consistency and a reference model are asserted after the operation. Bounded, not a proof.',
         note='Keys/values interact with the code only through ==/hash; CrossHair path exhaustion and z3 are trusted; pre-states larger than the bound are outside the claim.',
         ref='C17'),
+    'C18': dict(
+        technique='bounded symbolic execution (CrossHair/z3): solver-chosen scripts of file operations on SpooledBytesIO/SpooledStringIO for every '
+                  'max_size, differential against io.BytesIO/io.StringIO; MultiFileReader over solver-chosen partitions',
+        text='From four preset contents (multi-byte characters, LF/CR/CRLF and other Unicode line boundaries) every script of 2 operations out of '
+             'write/read(n)/read()/readline/readlines/iteration/seek(p)/seek-to-end/tell/getvalue/len with solver-chosen sizes, positions and '
+             'chunk classes runs on a spooled object for EVERY max_size 1..len+3 and never-rolling, and on the io reference: results, tell() and '
+             'getvalue() agree after each step. MultiFileReader: every content of <= 2 items, every 3-way partition (empty members), scripts of '
+             'sized/unsized reads and seek(0), then a sized read of the rest. Bounded model checking.',
+        note='Trusted: CrossHair/z3 exhaustion, io.BytesIO/io.StringIO as reference, real TemporaryFile. Outside: truncate, fileno, longer scripts, other encodings.',
+        ref='C18'),
     'C19': dict(
         technique='bounded symbolic execution (CrossHair/z3): iter_splitlines on a symbolic Unicode string through the real regex scan '
                   '(CrossHair regex/string theory); reverse_iter_lines and JSONLIterator on contents assembled from solver-chosen item classes, every block size',
